@@ -35,11 +35,12 @@ def check_pass(p, name, c, spec):
 
     c = rebuild(c)  # a fresh copy per pass: a pass that corrupts its argument must not poison the next case
     before = circ.snapshot(c)
+    c_src, c_desc = circ.circ_src(c), circ.describe(c)  # taken *before* the pass runs: the pass may corrupt its argument
     try:
         r = passes.apply_spec(spec, c)
     except Exception as e:  # noqa: BLE001
-        p.violation(f"pass-raises:{spec}:{type(e).__name__}", f"{spec} raised {type(e).__name__}: {e} on {circ.describe(c)}",
-                    REPLAY_PRELUDE + passes.IMPORTS + passes.APPLY_SRC + circ.circ_src(c) +
+        p.violation(f"pass-raises:{spec}:{type(e).__name__}", f"{spec} raised {type(e).__name__}: {e} on {c_desc}",
+                    REPLAY_PRELUDE + passes.IMPORTS + passes.APPLY_SRC + c_src +
                     f"\ntry:\n    apply_spec({spec!r}, c)\nexcept Exception as e:\n    print(type(e).__name__, e); sys.exit(1)\nsys.exit(0)\n")
         return
     p.case(("c03", before[:3], spec), sample=f"{spec} on {name}: {circ.describe(c)} -> {circ.describe(r)}")
@@ -79,8 +80,8 @@ def check_pass(p, name, c, spec):
     if problems:
         p.violation(
             f"pass:{spec}:{problems[0].split(':')[0][:40]}",
-            f"{spec} on {circ.describe(c)} -> {circ.describe(r)}: {problems[:3]}",
-            REPLAY_PRELUDE + passes.IMPORTS + passes.APPLY_SRC + circ.circ_src(c) + "\nimport itertools\n"
+            f"{spec} on {c_desc} -> {circ.describe(r)}: {problems[:3]}",
+            REPLAY_PRELUDE + passes.IMPORTS + passes.APPLY_SRC + c_src + "\nimport itertools\n"
             f"spec={spec!r}\nbefore=circ.snapshot(c)\nr=apply_spec(spec, c)\nbad=[]\n"
             "if circ.snapshot(c)!=before: bad.append('argument modified')\n"
             "if len(r.outputs)!=len(c.outputs): bad.append('output count')\n"
